@@ -23,3 +23,36 @@ def delete : Dict → Val → Dict
   | (k', v') :: d, k => if equal k' k then d else (k', v') :: delete d k
 
 end Uniflow.Dict
+
+namespace Uniflow.Dict
+open Uniflow.Value
+
+/-- operations of a history on one map -/
+inductive DOp
+  | set (k v : Val) | delete (k : Val) | clear | mutable | immutable
+
+/-- the reference semantics of one step (`isMut`: the map is a mutable one): an immutable map keeps its stored value
+when asked to store an Equal one; `Mutable`/`Immutable` do not change the content -/
+def step (isMut : Bool) (d : Dict) : DOp → Dict
+  | .set k v =>
+    if isMut then set d k v
+    else
+      match get d k with
+      | some v0 => if equal v0 v then d else set d k v
+      | none => set d k v
+  | .delete k => delete d k
+  | .clear => []
+  | .mutable => d
+  | .immutable => d
+
+def kindAfter (isMut : Bool) : DOp → Bool
+  | .mutable => true
+  | .immutable => false
+  | _ => isMut
+
+/-- a whole history from a map of kind `isMut` with content `d` -/
+def run (isMut : Bool) (d : Dict) : List DOp → Bool × Dict
+  | [] => (isMut, d)
+  | op :: rest => run (kindAfter isMut op) (step isMut d op) rest
+
+end Uniflow.Dict
